@@ -104,6 +104,11 @@ func (q *UQUICConn) Close() error {
 // It may produce connection events, which may be read with NextEvent.
 func (q *UQUICConn) HandleData(level QUICEncryptionLevel, data []byte) error {
 	c := q.conn
+	if !c.quic.started {
+		// [uTLS] No handshake goroutine exists that could take the data: waiting
+		// for it would block forever.
+		return quicError(errors.New("tls: HandleData called before Start"))
+	}
 	if c.in.level != level {
 		return quicError(c.in.setErrorLocked(errors.New("tls: handshake data received at wrong level")))
 	}
